@@ -368,6 +368,20 @@ fn diff_obs(pre: &Obs, post: &Obs, with_views: bool, legit: &[Key]) -> Vec<Strin
 }
 
 pub fn execute(lines: &[String]) -> CaseReport {
+    // `run_internet` wraps the current hook (calls it, then captures a backtrace and exits): name the
+    // panic site for the parent and end the process at once
+    std::panic::set_hook(Box::new(|info| {
+        let (file, line) = info.location().map(|l| (l.file().to_string(), l.line())).unwrap_or(("?".into(), 0));
+        let msg = if let Some(s) = info.payload().downcast_ref::<&str>() {
+            s.to_string()
+        } else if let Some(s) = info.payload().downcast_ref::<String>() {
+            s.clone()
+        } else {
+            "?".into()
+        };
+        eprintln!("@@PANIC {}:{}: {}", file, line, msg.replace('\n', " "));
+        std::process::exit(101);
+    }));
     let mut rep = CaseReport::default();
     let Some(cfg) = lines.first().and_then(|l| parse_cfg(l)) else {
         rep.line(lines.first().cloned().unwrap_or_default(), "bad-cfg");
